@@ -101,6 +101,16 @@ def longlived_events(mo, msgs, reconf=()):
         if mo['sch']['s'] == 'none' and mo['mode'] in ('ecb', 'cbc') and len(M) % bl == 0 and M:
             d = call(dict(op='dec', mo=mo, m=B(M), live=True), lambda: obj.dec(M)); ev.append(d)
             if not d['raised'] and d['obs'] != [-1]: ev.append(call(dict(op='enc', mo=mo, m=d['obs'], live=True), lambda: obj.enc(bytes(d['obs']))))
+    if mo['mode'] == 'ctr':                               # short message, counter moved from outside (reset / a twin object), then a LONGER message under the same configuration
+        for mover in ('reset', 'twin', 'reset'):
+            e = call(dict(op='enc', mo=mo, m=B(bytes(bl)), live=True), lambda: obj.enc(bytes(bl))); ev.append(e)
+            try:
+                if mover == 'reset' or twin is None: obj.counter.reset()
+                else: twin.enc(bytes(2 * bl))
+            except Exception: pass
+            M = bytes((7 * i + 1) & 255 for i in range((5 + len(ev) % 3) * bl))            # whole blocks (the toy cipher's first keystream byte barely depends on the counter)
+            e = call(dict(op='enc', mo=mo, m=B(M), live=True), lambda: obj.enc(M)); ev.append(e)
+            if not e['raised'] and e['obs'] != [-1]: ev.append(call(dict(op='dec', mo=mo, m=e['obs'], live=True), lambda: obj.dec(bytes(e['obs']))))
     return ev
 
 def classify(ctx, tr, recs):
